@@ -453,6 +453,25 @@ theorem C04_no_effect {σ μ out : Type} (validate : σ → μ → Verdict) (han
   | accept => exact absurd hv h
   | reject => rfl
 
+theorem combineFrom_accept (ig : Bool) (vs : List V3) :
+    combineFrom ig vs = .accept ↔ ig = false ∧ ∀ v ∈ vs, v = .accept := by
+  induction vs generalizing ig with
+  | nil => cases ig <;> simp [combineFrom]
+  | cons v rest ih =>
+    cases v with
+    | accept => simp [combineFrom, ih]
+    | reject => simp [combineFrom]
+    | ignore => simp [combineFrom, ih]
+    | unknown => simp [combineFrom]
+
+/-- **Several validators on one topic.**  The combined verdict is accept exactly when every registered
+    validator accepts; one reject, ignore or unknown value among them is enough for the message not to be
+    handled. -/
+theorem C04_combine_accept_iff (vs : List V3) : combine vs = .accept ↔ ∀ v ∈ vs, v = .accept := by
+  unfold combine
+  rw [combineFrom_accept]
+  simp
+
 /-- adjacent comparison is the same as pairwise order, because the byte order is transitive -/
 theorem C04_nondecreasing_pairwise (l : List Bytes) :
     NonDecreasing l ↔ l.Pairwise (fun a b => bytesLe a b = true) := by
